@@ -82,6 +82,9 @@ static int flushData(scpi_t * context) {
 static size_t writeDelimiter(scpi_t * context) {
     if (context->output_count > 0) {
         return writeData(context, ",", 1);
+    } else if (!context->first_output) {
+        /* first item of a response unit that follows another response unit */
+        return writeData(context, ";", 1);
     } else {
         return 0;
     }
@@ -127,12 +130,6 @@ static scpi_bool_t processCommand(scpi_t * context) {
     const scpi_command_t * cmd = context->param_list.cmd;
     lex_state_t * state = &context->param_list.lex_state;
     scpi_bool_t result = TRUE;
-    scpi_bool_t is_query = context->param_list.cmd_raw.data[context->param_list.cmd_raw.length - 1] == '?';
-
-    /* conditionally write ; */
-    if(!context->first_output && is_query) {
-        writeData(context, ";", 1);
-    }
 
     context->cmd_error = FALSE;
     context->output_count = 0;
@@ -149,12 +146,13 @@ static scpi_bool_t processCommand(scpi_t * context) {
         } else {
             if (context->cmd_error) {
                 result = FALSE;
-            } else {
-                if(context->first_output && is_query) {
-                    context->first_output = FALSE;
-                }
             }
         }
+    }
+
+    /* this unit responded - following response unit is separated by ; */
+    if (context->output_count > 0) {
+        context->first_output = FALSE;
     }
 
     /* set error if command callback did not read all parameters */
@@ -248,6 +246,7 @@ scpi_bool_t SCPI_Parse(scpi_t * context, char * data, int len) {
 
     /* conditionally write new line */
     writeNewLine(context);
+    context->first_output = TRUE;
 
     return result;
 }
@@ -285,6 +284,7 @@ void SCPI_Init(scpi_t * context,
     context->buffer.data = input_buffer;
     context->buffer.length = input_buffer_length;
     context->buffer.position = 0;
+    context->first_output = TRUE;
     SCPI_ErrorInit(context, error_queue_data, error_queue_size);
 }
 
